@@ -319,7 +319,9 @@ def run_cbmc_portfolio_(ob, gb, extra=(), want_results=True):
             bts = int(mem * (1 << 30))
             resource.setrlimit(resource.RLIMIT_AS, (bts, bts))
         t0 = time.time()
-        p = subprocess.Popen(cmd, stdout=subprocess.PIPE, stderr=subprocess.PIPE, preexec_fn=pre)
+        # solver temp files (external SAT solver CNF, SMT2 dumps) go into the obligation's scratch directory, removed with it
+        p = subprocess.Popen(cmd, stdout=subprocess.PIPE, stderr=subprocess.PIPE, preexec_fn=pre,
+                             env=dict(os.environ, TMPDIR=os.path.dirname(gb)))
         with lock:
             procs.append(p)
         try:
